@@ -65,6 +65,10 @@ Definition P_C13 (tr : trace) : bool :=
    written out is dropped, as for the looked-up URL) is a prefix of the looked-up
    URL with a "/" appended unless it ends in one.
 
+   The code meets this since fixes/C13/07 (getBackendLocked matches only where the
+   configured URL ends in "/" or the looked-up URL continues with "/"): theorems
+   C13_static_owner_trace and C13_etcd_owner_trace, every history.
+
    P_C13 alone compares the running server with a freshly started one; a lookup
    that is wrong in both in the same way passes it.  This clause looks at every
    accepted answer - of the running and of the fresh instance - by itself: the
@@ -142,10 +146,13 @@ Definition oracle (tbl : list (string * purl)) (s : string) : option purl :=
 
 Section Judge.
 Context (up : string -> option purl).
-(* which model: the repaired code (kinds 0, 1) or the code as it was (kinds 2, 3;
-   used once to validate the unrepaired model behind the `_refuted` theorems) *)
+(* which model: the repaired code (kinds 0, 1) or the code as it was before
+   fixes/C13/01..07 (kinds 2, 3; used to validate the unrepaired model behind the
+   `_refuted` theorems against the unrepaired code) *)
 Context (rl : sstate -> config -> option sstate).
 Context (estep : estate -> eop -> estate).
+(* ... and the lookup: with the path-segment boundary test (fixes/C13/07) or as it was *)
+Context (bfix : bool).
 
 (* static storage: running state (None after a panic / before OInit) and the last configuration *)
 Fixpoint diff_static (i : N) (st : option (sstate * config)) (tr : trace) : option N :=
@@ -161,7 +168,7 @@ Fixpoint diff_static (i : N) (st : option (sstate * config)) (tr : trace) : opti
           | None => if out_eqb v VPanic then diff_static (N.succ i) None r else Some i
           end
       | OProbe u, Some (s, c) =>
-          if out_eqb v (VAns (answer_of (lookup_static up s u)) (answer_of (lookup_static up (fresh up c) u)))
+          if out_eqb v (VAns (answer_of (lookup_static_with up bfix s u)) (answer_of (lookup_static_with up bfix (fresh up c) u)))
           then diff_static (N.succ i) st r else Some i
       | _, _ => Some i
       end
@@ -179,7 +186,7 @@ Fixpoint diff_etcd (i : N) (st : estate) (kv : list (N * option einfo)) (tr : tr
                  (match e with EPut k x => kv_set k x kv | EDel k => kv_del k kv end) r
           else Some i
       | OProbe u =>
-          if out_eqb v (VAns (answer_of (lookup_etcd up st u)) (answer_of (lookup_etcd up (fold_left estep (map (fun e => EPut (fst e) (snd e)) kv) einit) u)))
+          if out_eqb v (VAns (answer_of (lookup_etcd_with up bfix st u)) (answer_of (lookup_etcd_with up bfix (fold_left estep (map (fun e => EPut (fst e) (snd e)) kv) einit) u)))
           then diff_etcd (N.succ i) st kv r else Some i
       | _ => Some i
       end
@@ -257,10 +264,10 @@ Definition judge (c : case) : list (N * N * N) :=
   (if (match mode with 0%N => true | _ => owner_clause kind tbl tr end) then []
    else [(id, 4%N, first_fail (owner_clause kind tbl) (List.length tr) 0 tr)]) ++
   (match (match kind with
-          | 0%N => diff_static (oracle tbl) (reload (oracle tbl)) 0 None tr
-          | 1%N => diff_etcd (oracle tbl) (etcd_step (oracle tbl)) 0 einit [] tr
-          | 2%N => diff_static (oracle tbl) (reload_unrepaired (oracle tbl)) 0 None tr
-          | _ => diff_etcd (oracle tbl) (etcd_step_unrepaired (oracle tbl)) 0 einit [] tr
+          | 0%N => diff_static (oracle tbl) (reload (oracle tbl)) true 0 None tr
+          | 1%N => diff_etcd (oracle tbl) (etcd_step (oracle tbl)) true 0 einit [] tr
+          | 2%N => diff_static (oracle tbl) (reload_unrepaired (oracle tbl)) false 0 None tr
+          | _ => diff_etcd (oracle tbl) (etcd_step_unrepaired (oracle tbl)) false 0 einit [] tr
           end) with Some i => [(id, 1%N, i)] | None => [] end) ++
   (if (match mode with 0%N => true | _ => P_C13 tr end) then [] else [(id, 2%N, 0%N)]).
 
